@@ -115,7 +115,14 @@ class Gen:
         centers = {r: self.ri(p["center"]) for r in runners}
         cum = {r: {} for r in runners}
         status, version, inplay, bet_delay, bsp_rec = "OPEN", 1, False, 0, False
-        rstat = {str(r): ["ACTIVE", _r2(100.0 / len(runners)), None] for r in runners}
+        # adjustment factors: a partition of (at most) 100 so that removals are consistent with the
+        # other runners' factors; includes None, 0, values just below / at / above 2.5 and up to ~97
+        special = rnd.choice([None, 0.0, 1.2, 2.4, 2.5, 2.6, 10.0, 16.2, 45.5, 97.0, None, 2.5])
+        rest = 100.0 - (special or 0.0)
+        others = [_r2(rest / max(1, len(runners) - 1))] * (len(runners) - 1)
+        afs = [special] + others
+        rnd.shuffle(afs)
+        rstat = {str(r): ["ACTIVE", afs[i], None] for i, r in enumerate(runners)}
         pt = t_start
         books = {}
         for k in range(n):
@@ -145,8 +152,11 @@ class Gen:
                 act = [r for r in runners if rstat[str(r)][0] == "ACTIVE"]
                 if len(act) > 1:
                     r = rnd.choice(act)
-                    af = rnd.choice([None, 0.0, 1.2, 2.4, 2.5, 2.6, 10.0, 16.2, 45.5, 99.0])
-                    rstat[str(r)] = ["REMOVED", af, None]  # a removed runner has no starting price
+                    # prefer removing the runner with the special factor
+                    sp = [x for x in act if rstat[str(x)][1] == special]
+                    if sp and self.chance(0.6):
+                        r = sp[0]
+                    rstat[str(r)] = ["REMOVED", rstat[str(r)][1], None]  # a removed runner has no starting price
                     version += 1
             u = {
                 "pt": pt,
